@@ -275,7 +275,7 @@ Section Sim.
     outputs_of (pre ++ e :: suf) sid o = snd (spec_step table cap sid (List.length pre) sp e).
   Proof.
     intros HG HR E. set (i := List.length pre) in *.
-    destruct e as [cls obj | sid' level timeout now | now].
+    destruct e as [cls obj | sid' level timeout now | now | |].
     - (* Trigger *) cbn [step] in E. inversion E; subst; clear E.
       destruct (R_trigger i cls obj _ _ HR) as [A B].
       split; [apply G_app, G_trigger; auto|]. split; [rewrite lookup_trigger_all; exact A | rewrite B; reflexivity].
@@ -324,6 +324,8 @@ Section Sim.
       + apply G_app. pose proof (G_tick pre i now st (conj HN HF)) as Gt. rewrite E in Gt. exact Gt.
       + rewrite P1. exact A.
       + rewrite P2. exact B.
+    - cbn [step] in E. inversion E; subst. cbn. split; [apply G_app; auto | split; auto].
+    - cbn [step] in E. inversion E; subst. cbn. split; [apply G_app; auto | split; auto].
   Qed.
 
   Lemma run_sim : forall suf pre st st' o sp,
